@@ -97,7 +97,27 @@ def gen_jobshop(rng):
     return {"jobs": jobs, "configs": configs}
 
 
+def gen_vrp_tight(rng, mode="solve"):
+    """mostly multi-vehicle customers with tight capacity: placements fail, customers get removed and re-inserted often"""
+    n = rng.randint(3, 6)
+    customers = []
+    for i in range(n):
+        tws = rng.choice([0, 0, rng.randint(0, 10)])
+        customers.append([rng.randint(-10, 10), rng.randint(1, 4), tws, None if rng.random() < 0.5 else tws + rng.randint(5, 40), rng.randint(0, 2),
+                          2 if rng.random() < 0.7 else 1])
+    veh = rng.randint(2, 3)
+    total = sum(c[1] * c[5] for c in customers)
+    cap = max(4, int(total / veh * rng.choice([0.6, 0.8, 1.0, 1.3])))
+    case = {"customers": customers, "vehicles": veh, "capacity": cap, "seed": rng.randint(0, 10 ** 6), "mode": mode, "max_iter": 150}
+    if mode == "sequence":
+        names = list(OPS)
+        case["sequence"] = ["sync_aware_insertion"] + [rng.choice(names) for _ in range(rng.randint(6, 16))]
+    return case
+
+
 def gen_vrp(rng, mode="solve"):
+    if rng.random() < 0.45:
+        return gen_vrp_tight(rng, mode)
     n = rng.randint(2, 7)
     customers = []
     nsync = 0
